@@ -97,7 +97,10 @@ def main():
     for p in props:
         i = p["id"]
         if i in CHECKS:
-            c = CHECKS[i]
+            c = dict(CHECKS[i])
+            if i != "C13":
+                c["technique"] += "; plus, for pairs of this property's operations, a reduction-free caller-switch search: the default execution and every execution with one switch (thorough: two) to the other top-level caller at a scheduling point (sync, channel, pool, sync/atomic operations and post-release points), warm and — one fresh process per execution — for the first use"
+                c["text"] += " Two callers at once: every pair of the property's operations under every single caller switch (warm, and first use in fresh processes), each judged against the calls executed alone; the calls are also run with their read-only arguments in write-protected pages."
             checks.append({
                 "property_id": i,
                 "quick_cmd": f"./vrun {i} quick",
@@ -116,14 +119,14 @@ def main():
         "setup_cmd": "./vrun --setup",
         "hooks": {
             "guard": "verif (build tag on overlay-injected files only; nothing is committed to /repo for instrumentation)",
-            "enable": "go build -tags verif -overlay <scratch>/overlay.json: the instrumenter (engine/instrument) rewrites go/chan/sync/runtime.NumCPU/map-range constructs of /repo's current working tree into the vsched shim and injects zz_verif_export.go files; see DESIGN.md §2.1-2.2",
+            "enable": "go build -tags verif -overlay <scratch>/overlay.json: the instrumenter (engine/instrument) rewrites go/chan/sync/sync-atomic/runtime.NumCPU/runtime.GOMAXPROCS/map-range constructs of /repo's current working tree into the vsched shim and injects zz_verif_export.go files; see DESIGN.md §2.1-2.2",
             "baseline_off_cmd": "cd /repo && GOFLAGS=-mod=mod go test -vet=off -count=1 -timeout 25m ./...",
             "source_commits": [],
             "add_only": True,
         },
         "engines": [
             {"name": "vcheck", "path": "/verif/engine", "serves_properties": sorted(CHECKS),
-             "kind_free_text": "hand-written stateless model checker for Go: controlled cooperative scheduler (vsched shim injected by overlay), deviation-bounded DFS and DPOR with sleep sets over the real implementation, explicit-state BFS over API histories, bounded-exhaustive input enumeration against an independent math/big reference model"},
+             "kind_free_text": "hand-written stateless model checker for Go: controlled cooperative scheduler (vsched shim injected by overlay), deviation-bounded DFS (incl. caller-switch search over concurrent API calls, one fresh process per execution for first-use scenarios) and DPOR with sleep sets over the real implementation, explicit-state BFS over API histories, bounded-exhaustive input enumeration against an independent math/big reference model"},
         ],
         "checks": checks,
         "notes": "All checks run ./vrun, which re-instruments and rebuilds from /repo's current working tree on every invocation. Exit 0 = held, 1 = VIOLATION, 2 = BUILD-ERROR, 3 = TOOL-ERROR.",
